@@ -83,11 +83,11 @@ def _cov_writers(chk, repo):
 def run(chk, repo: Repo):
     chk.rule("C15-R1", "covariance consumers normalise scalar (also as a length-one 1-D array), vector and matrix storage forms", floor=4)
     chk.rule("C15-R2", "closed-form MAP: Tarantola (3.37-3.38) from get_matrix(), data, prior mean/cov, noise cov; route selected by type and size", floor=2)
-    chk.rule("C15-R3", "optimiser receives -logd and -gradient of the same density; result wrapped with that density's geometry", floor=3)
+    chk.rule("C15-R3", "optimiser receives -logd and -gradient of the same density; result wrapped with that density's geometry; ML is the optimiser on the likelihood on every path", floor=3)
     chk.rule("C15-R4", "direct sampling: x_map.parameters + chol(inv(A.T Ce^-1 A + Cx^-1)) @ N(0, I)", floor=1)
     chk.rule("C15-R5", "no in-place operation of MAP/_sampleMapCholesky may reach stored problem data", floor=2)
     chk.rule("C15-R6", "the covariance the direct route reads (Gaussian.compute_cov) is inv(sqrtprec.T @ sqrtprec), the covariance of the log-density; "
-                       "only the cov setter and compute_cov populate the stored covariance", floor=5)
+                       "only the cov setter and compute_cov populate the stored covariance, a setter re-derives it only after storing the new sqrtprec; the gradient handed to the optimiser applies a Gram product", floor=5)
     from ..gram import gram_orientation
     gram_orientation(chk, repo, "C15-R6", only={"Gaussian.compute_cov"})
     from ..gram import same_orientation_application
